@@ -266,6 +266,11 @@ func runSession(c Case, tr *Tracer) {
 			resolve(root, "Header.Sequence[1]").SetUint(beUint(caseBytes(q, "w2")))
 		}
 		v := uint32(beUint(caseBytes(q, "seq")))
+		if v%2 == 0 {
+			// the PDU was sent once already under another number (a keep-alive loop re-uses one object)
+			p.SetSequenceID(v + 1)
+			_, _ = p.IEncode()
+		}
 		p.SetSequenceID(v)
 		b, err := p.IEncode()
 		if err != nil {
@@ -447,6 +452,10 @@ func runSessionScript(pkg string, script []map[string]interface{}, rr *rand.Rand
 				resolve(root, "Header.Sequence[1]").SetUint(uint64(7 * (len(sent) + 1)))
 			}
 			v := uint32(beUint(caseBytes(st, "seq")))
+			if v%2 == 0 {
+				p.SetSequenceID(v + 1)
+				_, _ = p.IEncode()
+			}
 			p.SetSequenceID(v)
 			b, err := p.IEncode()
 			if err != nil {
@@ -482,6 +491,15 @@ func runSessionScript(pkg string, script []map[string]interface{}, rr *rand.Rand
 				}
 			}
 			tr.emit(re)
+			if gr, ok := legacyResponse(p); ok {
+				re2 := Ev{"ev": "Reply", "type": types[i], "reqbytes": B(b), "rnil": true, "rtype": "", "rgetcmd": []int{}, "rbytes": []int{}, "site": types[i] + ".GenerateResponseHeader"}
+				if gr != nil && !reflect.ValueOf(gr).IsNil() {
+					if rb, err := gr.IEncode(); err == nil {
+						re2["rnil"], re2["rtype"], re2["rgetcmd"], re2["rbytes"] = false, typeNameOf(gr), pduGetCmd(gr), B(rb)
+					}
+				}
+				tr.emit(re2)
+			}
 			again(tr, pkg, p, types[i])
 		case "C":
 			i := caseInt(st, "idx") - 1
@@ -500,4 +518,22 @@ func runSessionScript(pkg string, script []map[string]interface{}, rr *rand.Rand
 			tr.emit(e)
 		}
 	}
+}
+
+// legacyResponse: the exported GenerateResponseHeader of the SMGP requests that have one
+func legacyResponse(p sms.PDU) (resp sms.PDU, ok bool) {
+	defer func() {
+		if recover() != nil {
+			resp, ok = nil, true
+		}
+	}()
+	switch q := p.(type) {
+	case *smgp30.Deliver:
+		return q.GenerateResponseHeader(), true
+	case *smgp30.ActiveTest:
+		return q.GenerateResponseHeader(), true
+	case *smgp30.Exit:
+		return q.GenerateResponseHeader(), true
+	}
+	return nil, false
 }
